@@ -55,11 +55,14 @@ Ratios == IF Rich THEN {RI(2), R(-1, 2), RI(3), R(-1, 4), RI(-1)} ELSE {RI(2), R
 Modes  == {"side1", "side2", "sum", "equal"}
 
 (* one device with k terminals 1..k; externals k+1..2k; `conn' = device terminals joined to their external *)
-SingleScenP(d, k, conn, pre) ==
-  [devs |-> <<d>>, nt |-> 2 * k, pre |-> pre,
+SingleScenPC(d, k, conn, pre, cons) ==
+  [devs |-> <<d>>, nt |-> 2 * k, pre |-> pre, cons |-> cons,
    links |-> [x \in 1..(2 * k) |-> IF x <= k THEN (IF x \in conn THEN x + k ELSE 0)
                                    ELSE (IF (x - k) \in conn THEN x - k ELSE 0)]]
+SingleScenP(d, k, conn, pre) == SingleScenPC(d, k, conn, pre, FALSE)
 SingleScen(d, k, conn) == SingleScenP(d, k, conn, {})
+(* every external terminal pre-loaded with states that already satisfy the device's constraint (idempotence clause) *)
+ConsistentScen(d, k) == SingleScenPC(d, k, 1..k, (k + 1)..(2 * k), TRUE)
 ConnSets(k) == IF Rich THEN SUBSET (1..k) ELSE {1..k, {}, {1}}
 
 SingleScens ==
@@ -73,6 +76,12 @@ SingleScens ==
               SingleScenP(Dev("axle", <<1, 2, 3>>, One, "none"), 3, {1, 2, 3}, {4, 5, 6}),
               SingleScenP(Dev("axle", <<1, 2, 3>>, One, "none"), 3, {1, 2, 3}, {1, 5})}
         ELSE {})
+  \cup (IF "consistent" \in DevTypes
+        THEN {ConsistentScen(Dev("invert", <<1, 2>>, One, "none"), 2)} \cup
+             {ConsistentScen(Dev("gear", <<1, 2>>, r, "none"), 2) : r \in {RI(2), R(-1, 2)}} \cup
+             {ConsistentScen(Dev("axle", <<1, 2, 3>>, One, "none"), 3)} \cup
+             {ConsistentScen(Dev("diff", <<1, 2, 3>>, One, m), 3) : m \in Modes}
+        ELSE {})
   \cup (IF "axlebig" \in DevTypes       \* axle sizes 0..8, nothing connected (constructor / scratch-slot clause of C16)
         THEN {SingleScen(Dev("axle", [i \in 1..k |-> i], One, "none"), k, {}) : k \in 0..8} ELSE {})
   \cup (IF "diff" \in DevTypes
@@ -84,7 +93,7 @@ SingleScens ==
 ChainOf(types) ==
   LET m == Len(types)
   IN [devs |-> [j \in 1..m |-> Dev(types[j][1], <<2 * j, 2 * j + 1>>, types[j][2], "none")],
-      nt |-> 2 * m + 2, pre |-> {},
+      nt |-> 2 * m + 2, pre |-> {}, cons |-> FALSE,
       links |-> [x \in 1..(2 * m + 2) |-> IF Mod(x, 2) = 1 THEN x + 1 ELSE x - 1]]
 ChainLinkTypes == {<<"invert", One>>, <<"gear", RI(2)>>, <<"gear", R(-1, 2)>>, <<"axle", One>>} \cup
                   (IF Rich THEN {<<"gear", RI(3)>>} ELSE {})
@@ -94,7 +103,7 @@ ChainScens ==
   (IF Rich THEN {ChainOf(<<a, b, c>>) : a \in ChainLinkTypes, b \in ChainLinkTypes, c \in ChainLinkTypes} ELSE
    {ChainOf(<<a, <<"gear", RI(2)>>, c>>) : a \in ChainLinkTypes, c \in {<<"invert", One>>, <<"axle", One>>}})
 
-MatchScen == [devs |-> <<>>, nt |-> NT, pre |-> {}, links |-> [x \in 1..NT |-> 0]]
+MatchScen == [devs |-> <<>>, nt |-> NT, pre |-> {}, cons |-> FALSE, links |-> [x \in 1..NT |-> 0]]
 
 Scens == CASE Family = "single" -> SingleScens
            [] Family = "chain" -> ChainScens
@@ -253,6 +262,15 @@ StateVal(x, t) == T3(RI(4 * x + t), RI(3 * t - 2 * x), RI(Mod(x * t, 5) - 2))
 CmdKind(x, t)  == Mod(x + t, 3)
 CmdVal(x, t)   == RI(2 * x - 3 * t + 1)
 
+(* states at the external terminals that already satisfy the constraint of device d (i = index of the device terminal they join) *)
+S0 == T3(RI(4), RI(-2), RI(6))
+S1 == T3(RI(1), RI(3), RI(-5))
+ConsVal(d, i) ==
+  CASE d.type = "invert" -> IF i = 1 THEN S0 ELSE TNeg(S0)
+    [] d.type = "gear" -> IF i = 1 THEN S0 ELSE TMul(S0, d.ratio)
+    [] d.type = "axle" -> S0
+    [] d.type = "diff" -> IF i = 1 THEN S0 ELSE IF i = 2 THEN S1 ELSE TAdd(S0, S1)
+
 Init ==
   /\ scen \in Scens
   /\ IF Family = "match" /\ InitAny
@@ -266,7 +284,9 @@ Init ==
           /\ ocmd \in {[x \in 1..scen.nt |-> IF p[x] = 0 THEN Nothing ELSE Just(CD(p[x], Mod(x, 3), RI(x + p[x])))] :
                            p \in {q \in [1..scen.nt -> 0..scen.nt] :
                                      \A x, y \in 1..scen.nt : (x # y /\ q[x] # 0) => q[x] # q[y]}}
-     ELSE /\ ost = [x \in 1..scen.nt |-> IF x \in scen.pre THEN Just(SD(0, StateVal(x, 0))) ELSE Nothing]
+     ELSE /\ ost = [x \in 1..scen.nt |-> IF x \in scen.pre
+                                          THEN Just(SD(0, IF scen.cons THEN ConsVal(scen.devs[1], x - Len(scen.devs[1].terms)) ELSE StateVal(x, 0)))
+                                          ELSE Nothing]
           /\ ocmd = [x \in 1..scen.nt |-> Nothing]
   /\ now = IF Family \in {"match", "matchdata"} THEN 10 ELSE IF scen.pre = {} THEN -1 ELSE 0   \* first write has rank 0 or 1
   /\ hist = IF Emit THEN <<[a |-> [op |-> "init"], obs |-> ObsAll(link, ost, ocmd)]>> ELSE <<>>
